@@ -1,6 +1,6 @@
 (** * FreeListOpen: the FreeList invariant in an OPEN world.
 
-    README (for users of this file, e.g. the DHP proofs) is at the end of LV.Proofs.FreeListOpenRules.
+    README (for users, e.g. the DHP proofs): at the end of LV.Proofs.FreeListOpenDhpThm.
 
     This file: three extensions of the closed-world state invariant [InvS] of LV.Proofs.FreeListInv that
     are needed when the free list is a component of a larger system:
